@@ -207,6 +207,30 @@ def rename_contract(lib, key, fdef):
     return executor.Contract(key, raw), mapping
 
 
+def optional_combinations(c):
+    """A parameter object may declare a field as ('opt', T): None or a T.  The function is then verified once per combination of
+    absent / present optional fields (each combination is an ordinary contract with 'none' / T in place of the option; obligations
+    of the same name are aggregated: all combinations must discharge them).  `x is None` in requires / ensures is decided per case."""
+    import copy
+    import itertools
+    slots = []
+    for pi, (p, t) in enumerate(c.params):
+        if isinstance(t, dict) and 'fields' in t:
+            for f, ft in t['fields'].items():
+                if isinstance(ft, tuple) and len(ft) == 2 and ft[0] == 'opt':
+                    slots.append((pi, f, ft[1]))
+    if not slots:
+        return [('', c)]
+    out = []
+    for choice in itertools.product([False, True], repeat=len(slots)):
+        cc = copy.copy(c)
+        cc.params = [(p, copy.deepcopy(t)) for p, t in c.params]
+        for (pi, f, inner), present in zip(slots, choice):
+            cc.params[pi][1]['fields'][f] = inner if present else 'none'
+        out.append((''.join('1' if x else '0' for x in choice), cc))
+    return out
+
+
 def gen_function_vcs(lib, key):
     """key = 'pyclifford/utils.py::acq'.  returns (vcs, info)"""
     c = lib.contracts[key]
@@ -228,15 +252,34 @@ def gen_function_vcs(lib, key):
     if renamed:
         info['renamed_locals'] = renamed
     outer = find_function(filekey, qual.split('.')[0])[0] if '.' in qual else None
-    fv = executor.FuncVerifier(lib, filekey, fdef, c, module_function_names(filekey), modules=MODULES,
-                               class_name=qual.split('.')[0] if isinstance(outer, ast.ClassDef) else None)
+    cls_name = qual.split('.')[0] if isinstance(outer, ast.ClassDef) else None
     try:
-        vcs = fv.run()
+        combos = optional_combinations(c)
+        vcs, reach, callees, lemmas, nl, skipped = [], [0, 0], set(), set(), 0, 0
+        for label, cc in combos:
+            fv = executor.FuncVerifier(lib, filekey, fdef, cc, module_function_names(filekey), modules=MODULES, class_name=cls_name)
+            try:
+                v_ = fv.run()
+            except engine.ContractError as e:
+                if len(combos) > 1 and str(e).startswith('vacuous'):
+                    skipped += 1          # this combination of absent / present optional fields is excluded by the requires
+                    continue
+                raise
+            vcs += v_
+            r_ = getattr(fv, 'reachable_returns', (0, 0))
+            reach = [reach[0] + (r_[0] or 0), reach[1] + (r_[1] or 0)]
+            callees |= fv.used_callees
+            lemmas |= fv.used_lemmas
+            nl = fv.n_loops
+        if len(combos) > 1:
+            info['optional_field_cases'] = {'total': len(combos), 'excluded_by_requires': skipped}
+            if skipped == len(combos):
+                raise engine.ContractError('vacuous: the requires of %s exclude every combination of its optional fields' % key)
         info['status'] = 'ok'
-        info['n_loops'] = fv.n_loops
-        info['reachable_returns'] = list(getattr(fv, 'reachable_returns', (None, None)))
-        info['callees'] = sorted(fv.used_callees - {key})
-        info['lemmas'] = sorted(fv.used_lemmas)
+        info['n_loops'] = nl
+        info['reachable_returns'] = reach
+        info['callees'] = sorted(callees - {key})
+        info['lemmas'] = sorted(lemmas)
     except engine.OutOfFragment as e:
         info['status'] = 'out-of-fragment'
         info['error'] = str(e)
